@@ -11,7 +11,8 @@ exactly one."
 The transition system of `OPM.SaveConc` has the variants `Cfg = (locked, resetOnRegister)`: with / without a
 per-engine lock held from the version check across the engine round trip to the commit, and with a method version
 that falls back to 0 / continues when the engine registers again after a disconnect.  Events: save requests with any
-base versions, engine answers (ok / error) in any order, engine disconnects and re-registrations at any point.  The
+base versions, engine answers (ok / error) in any order, engine disconnects and re-registrations at any point, and
+the method message the engine sends when it catches up (with the stale version it holds).  The
 statement holds of the variant (locked, version continues) for every schedule, and is refuted by a decided schedule
 for each of the other two defects.  Which variant the code is, is measured on the real handler by the harness;
 `OPM.Gen.SaveLock` (regenerated from the source on every run) independently says whether one lock spans check, round
@@ -111,6 +112,11 @@ theorem stepOK_of_good {v0 : Nat} {p : Bool} {s s' : State} {e : Ev} (g : Good v
     split at h
     · cases h
     · cases h; exact Or.inr (Or.inr ⟨rfl, by simp, rfl⟩)
+  | engineMethod v content =>
+    simp only [step, fixed] at h
+    split at h
+    · cases h
+    · cases h; exact Or.inl ⟨rfl, by simp, rfl⟩
 
 /-- **C31 for the system with the per-engine lock and a version that survives re-registration**: all interleavings,
 any number of requests, disconnects and re-registrations at every point. -/
@@ -161,6 +167,28 @@ theorem version_reset_violates : ¬ Statement { locked := true, resetOnRegister 
   have := (h 0 _ (reach_run reconnectWitness Reach.init hw)).1
   revert this
   decide
+
+/-- The schedule on which taking over the engine's version in `handle_MethodMsg` fails: a save is accepted (version
+1), the engine reconnects (version 2), its catch-up MethodMsg carries the version it holds (1) — the version falls
+back to a number that was handed out before. -/
+def methodMsgWitness : List Ev := [.start 0 0 1, .reply 0 true, .disconnect, .register, .engineMethod 1 1]
+
+/-- **If the engine's MethodMsg lowered the version the statement would be false** (the version is no longer the
+count of accepted saves and re-registrations: numbers are handed out twice). -/
+theorem method_msg_version_violates :
+    ¬ Statement { locked := true, resetOnRegister := false, methodMsgSetsVersion := true } := by
+  intro h
+  have hw : run { locked := true, resetOnRegister := false, methodMsgSetsVersion := true } (init 0) methodMsgWitness =
+      some { version := 1, reconnects := 1, content := some 1, accepted := [⟨0, 0, 1⟩], engineLog := [1],
+             results := [(0, .accepted 1)] } := by decide
+  have := (h 0 _ (reach_run methodMsgWitness Reach.init hw)).2.1
+  revert this
+  decide
+
+/-- in the code as it is the same schedule keeps the version, and the lines come from the engine -/
+example : run fixed (init 0) methodMsgWitness =
+    some { version := 2, reconnects := 1, content := some 1, accepted := [⟨0, 0, 1⟩], engineLog := [1],
+           results := [(0, .accepted 1)] } := by decide
 
 /-- …and the same schedules are harmless in the repaired system: the second save waits and is then rejected; the
 stale save after the reconnect is rejected. -/
